@@ -1738,7 +1738,7 @@ fn string_requests(d: &Desc, full_set: bool, out: &mut Vec<String>) {
 fn fmt_grid(thorough: bool) -> Vec<String> {
     let fills = ["", "*", "é"];
     let aligns = ["", "<", "^", ">"];
-    let widths = ["", "0", "1", "2", "3", "4", "5", "6", "05"];
+    let widths = ["", "0", "1", "2", "3", "4", "5", "6", "05", "03"];
     let precs = ["", ".0", ".2"];
     let reps = ["", "?", "x", "o", "b", "e"];
     let mut v = vec![];
